@@ -728,9 +728,9 @@ impl Vfs {
 
         match self.mountpoints.load().get(&entry.inode) {
             Some(mnt) => {
-                // cross mountpoint, return mount root entry
+                // cross mountpoint, return mount root entry. It was converted (inode
+                // number and ids) when the mount was inserted, so return it as it is.
                 entry = mnt.root_entry;
-                self.convert_entry(mnt.fs_idx, mnt.ino, &mut entry)?;
                 trace!(
                     "vfs lookup cross mountpoint, return new mount fs_idx {} inode 0x{:x} fuse inode 0x{:x}, attr inode 0x{:x}",
                     mnt.fs_idx,
